@@ -372,7 +372,11 @@ func c11Lag(c *core.Ctx) {
 			series = append(series, float64(len(series)+1))
 		}
 	}
-	c.Begin(map[string]interface{}{"model": model, "lag": lag, "segment_lengths": lens, "initial_buffer": buf, "state_row_padding": rowPad, "inflow": "1,2,3,... (unique ids)"})
+	NC := 1
+	if c.R.Bool(0.35) {
+		NC = c.R.IntRange(2, 4)
+	}
+	c.Begin(map[string]interface{}{"model": model, "lag": lag, "cells": NC, "segment_lengths": lens, "initial_buffer": buf, "state_row_padding": rowPad, "inflow": "1,2,3,... (unique ids; cell k: +1000k)"})
 	c.Class(fmt.Sprintf("lag%d/T%d/seg%d", lag, T, nseg))
 	if lag > T {
 		c.Tag("lag:lag>len")
@@ -380,33 +384,55 @@ func c11Lag(c *core.Ctx) {
 	if lag == 0 && T == 1 {
 		c.Trivial()
 	}
-	// reference: whole history = buffer ++ inflow ; out[t] = hist[t]
+	// reference: whole history = buffer ++ inflow ; out[t] = hist[t]. Several cells in one call (the same lag, every
+	// value of cell k larger by 1000*k than cell 0's): the buffers of the cells are neighbouring rows of one state array
 	hist := append(append([]float64{}, buf...), series...)
-	states := [][]float64{append(append([]float64{}, buf...), make([]float64, rowPad)...)}
+	off := func(k int, v float64) float64 { return v + 1000*float64(k) }
+	states := make([][]float64, NC)
+	for k := range states {
+		row := make([]float64, 0, lag+rowPad)
+		for _, v := range buf {
+			row = append(row, off(k, v))
+		}
+		states[k] = append(row, make([]float64, rowPad)...)
+	}
+	if NC > 1 {
+		c.Tag("lag:several-cells")
+	}
 	pos := 0
 	for s, l := range lens {
 		in := series[pos : pos+l]
-		run := &MRun{Model: model, N: 1, T: l, Sets: []PSet{{{float64(lag)}}}, Inputs: [][][]float64{{append([]float64{}, in...)}}, States: states}
+		blocks := make([][][]float64, NC)
+		for k := range blocks {
+			ser := make([]float64, l)
+			for t := range ser {
+				ser[t] = off(k, in[t])
+			}
+			blocks[k] = [][]float64{ser}
+		}
+		run := &MRun{Model: model, N: NC, T: l, Sets: []PSet{{{float64(lag)}}}, Inputs: blocks, States: states}
 		out, err := ExecuteFor(c, run)
 		if err != nil {
 			c.Violate("prepare", model, err.Error())
 			return
 		}
-		for t := 0; t < l; t++ {
-			want := hist[pos+t]
-			if out.Out[0][0][t] != want {
-				c.Violate("lag-output", model, fmt.Sprintf("lag=%d segment %d (length %d): outflow[%d]=%v, expected %v (the value that entered %d steps earlier)", lag, s, l, t, out.Out[0][0][t], want, lag), "lag_gt_len", fmt.Sprint(lag > l))
-				return
+		for k := 0; k < NC; k++ {
+			for t := 0; t < l; t++ {
+				want := off(k, hist[pos+t])
+				if out.Out[k][0][t] != want {
+					c.Violate("lag-output", model, fmt.Sprintf("lag=%d segment %d (length %d) cell %d of %d: outflow[%d]=%v, expected %v (the value that entered %d steps earlier)", lag, s, l, k, NC, t, out.Out[k][0][t], want, lag), "lag_gt_len", fmt.Sprint(lag > l))
+					return
+				}
 			}
-		}
-		// final buffer = last `lag` values of history so far
-		end := lag + pos + l
-		wantBuf := hist[end-lag : end]
-		got := out.States[0]
-		for i := 0; i < lag; i++ {
-			if i >= len(got) || got[i] != wantBuf[i] {
-				c.Violate("lag-buffer", model, fmt.Sprintf("lag=%d segment %d (length %d): final buffer %v, expected %v", lag, s, l, got, wantBuf), "lag_gt_len", fmt.Sprint(lag > l))
-				return
+			// final buffer = last `lag` values of history so far
+			end := lag + pos + l
+			wantBuf := hist[end-lag : end]
+			got := out.States[k]
+			for i := 0; i < lag; i++ {
+				if i >= len(got) || got[i] != off(k, wantBuf[i]) {
+					c.Violate("lag-buffer", model, fmt.Sprintf("lag=%d segment %d (length %d) cell %d of %d: final buffer %v, expected cell 0's %v (+%d)", lag, s, l, k, NC, got, wantBuf, 1000*k), "lag_gt_len", fmt.Sprint(lag > l))
+					return
+				}
 			}
 		}
 		states = out.States
